@@ -1,4 +1,5 @@
-"""C10 - deductive part (contracts/ats.py)."""
+"""C10 - deductive part (contracts/ats.py: de-duplication region, accepted settings; contracts/ats_map.py: get_relabel_map returns an
+isomorphism FROM its first TO its second argument, result-assembly region and lc_method dispatch of solve())."""
 from __future__ import annotations
 
 from pyvc.driver import run_tasks
@@ -16,4 +17,8 @@ def deductive(tier="quick", seed=0):
         "[chain] C16 (relabel, get_relabel_map), C09 (lc_check certificate, local_comp_graph), C02 (graph_to_circ), C12 (append)",
         "[B-only] composition inside solve(): each entry's circuit generates the relabelled target; listed graph in the LC orbit",
     ]
+    # direction of the relabel map ([A-GM] GraphMatcher), result-assembly region and lc_method dispatch of solve(): contracts/ats_map.py
+    from contracts import ats_map
+
+    d = ats_map.extend_deductive(d, tier)
     return d
